@@ -216,18 +216,21 @@ func runC09(c *Ctx) {
 	}
 
 	// ---- name and header carry begin/end -----------------------------------------
-	for _, cs := range callsIn(rot, "fmt.Sprintf") {
-		f, _ := constOf(argsOf(cs)[0])
-		d := describeArg(cs, 1)
+	nName, nHdr := 0, 0
+	for _, v := range builtStrings(rot) {
+		d := describe(v)
 		switch {
-		case strings.HasSuffix(f, ".%s.count"):
-			r.Check("C09.name-carries-begin", "rotate1/file name ends with begin date and version", m.Pos(cs.Pos()),
-				strings.Contains(d, `.timeBegin, "2006-01-02"), "`+m.ConstVal("internal/counter", "FileVersion")+`"]`) && strings.Contains(d, "(time.Time).Format("), "got "+d)
-		case strings.HasPrefix(f, "TimeBegin: %s\nTimeEnd: %s\n"):
-			r.Check("C09.name-carries-begin", "rotate1/header records begin and end in RFC3339", m.Pos(cs.Pos()),
-				strings.HasPrefix(d, `[(time.Time).Format(`) && strings.Contains(d, `.timeBegin, "2006-01-02T15:04:05Z07:00"), (time.Time).Format(`) && strings.Contains(d, `.timeEnd, "2006-01-02T15:04:05Z07:00"), `), "got "+shortDesc(d))
+		case strings.HasSuffix(d, ` + ".") + "`+m.ConstVal("internal/counter", "FileVersion")+`") + ".count")`):
+			nName++
+			r.Check("C09.name-carries-begin", "rotate1/file name ends with begin date and version", m.Pos(v.Pos()),
+				strings.Contains(d, `.timeBegin, "2006-01-02")) + ".") + `) && strings.Contains(d, "(time.Time).Format("), "got "+shortDesc(d))
+		case strings.Contains(d, `"TimeBegin: "`):
+			nHdr++
+			r.Check("C09.name-carries-begin", "rotate1/header records begin and end in RFC3339", m.Pos(v.Pos()),
+				strings.Contains(d, `"TimeBegin: " + (time.Time).Format(`) && strings.Contains(d, `.timeBegin, "2006-01-02T15:04:05Z07:00")) + "\nTimeEnd: ") + (time.Time).Format(`) && strings.Contains(d, `.timeEnd, "2006-01-02T15:04:05Z07:00")) + "\n`), "got "+shortDesc(d))
 		}
 	}
+	r.Check("C09.name-carries-begin", "rotate1/name and header constructions found", m.Pos(rot.Pos()), nName >= 1 && nHdr >= 1, fmt.Sprintf("name %d, header %d", nName, nHdr))
 	// f.timeBegin, f.timeEnd = begin, end (the values just computed)
 	for _, in := range instrsOf(rot) {
 		st, ok := in.(*ssa.Store)
